@@ -272,3 +272,177 @@ def check_complete(ctx, workspaces, built=None):
         if not o["perrs"] and not o["complete"] and o["noncore"] != "negative bits length":
             res["violations"].append({"text": t, "what": "error-free parse, not locally complete: %s" % o["noncore"]})
     return res
+
+
+# ------------------------------------------------------------------ the complete analysis (all nine handlers)
+def build_all():
+    """(bindir of the harness observers, path of bridgeall_run)"""
+    bindir = vlib.build_harness(False, bins=BINS)
+    exe = vlib.build_model("bridgeall")
+    return bindir, exe
+
+
+def char_offsets(text):
+    b = text.encode("utf-8")
+    return [i for i in range(len(b) + 1) if i == len(b) or (b[i] & 0xC0) != 0x80]
+
+
+def hint_sample(rng, text, k=6):
+    """inlay-hint request ranges of one file: the whole file, the empty range at both ends, and k random sub-ranges
+    on char boundaries"""
+    offs = char_offsets(text)
+    n = offs[-1]
+    out = [(0, n), (0, 0), (n, n)]
+    for _ in range(k):
+        a, b = sorted((rng.choice(offs), rng.choice(offs)))
+        out.append((a, b))
+    return out
+
+
+def _expand(runs, offs):
+    out, j = {}, -1
+    for o in offs:
+        while j + 1 < len(runs) and runs[j + 1]["o"] <= o:
+            j += 1
+        out[o] = runs[j] if j >= 0 else None
+    return out
+
+
+def _canon_items(items):
+    """completion items with every maximal run of Class items sorted (iter_class is a HashMap iteration)"""
+    if items is None:
+        return None
+    out, run = [], []
+    for it in items:
+        if it[2] == "Class":
+            run.append(it)
+        else:
+            out += sorted(run, key=json.dumps)
+            run = []
+            out.append(it)
+    return out + sorted(run, key=json.dumps)
+
+
+ALL_HANDLERS = ["goto_definition", "references", "diagnostics", "document_symbol", "hover", "inlay_hint",
+                "folding_range", "document_link", "completion"]
+
+
+def check_all(ctx, workspaces, rng, built=None, chunk=30, hint_k=6):
+    """THE COMPLETE ANALYSIS END TO END: the nine answers computed inside the extracted Coq model from the TEXTS
+    (bridgeall_run all = PipelineAll.analyze_all) == the real Analysis (harness idedump): goto_definition, references,
+    hover and completion (no trigger and '!') at every char-boundary offset of every workspace file; document_symbol,
+    folding_range, document_link and the per-file diagnostics of every file; inlay_hint for a sample of request ranges.
+    A disagreement names the handler (= the model that computed the answer) and the input."""
+    bindir, exe = built or build_all()
+    res = {"workspaces": 0, "compared": 0, "noncore": 0, "offsets": 0, "hint_requests": 0, "files": 0,
+           "by_handler": {h: 0 for h in ALL_HANDLERS}, "nonempty": {h: 0 for h in ALL_HANDLERS},
+           "model_internal": 0, "disagreements": []}
+    for part in vlib.chunked(list(workspaces), chunk):
+        hints = [{p: hint_sample(rng, t, hint_k) for p, t in w["files"].items()} for w in part]
+        inp = json.dumps([{"files": [[p, t] for p, t in w["files"].items()], "root": w["root"],
+                           "hint_ranges": [[p, lo, hi] for p, hs in h.items() for lo, hi in hs]}
+                          for w, h in zip(part, hints)])
+        I = json.loads(sl._run([os.path.join(bindir, "idedump")], inp, timeout=3600))
+        lines = [" ; ".join([cps(w["root"])] + ["%s | %s | %s" % (cps(p), cps(t), " ".join("%d %d" % x for x in h[p]))
+                                                for p, t in w["files"].items()]) for w, h in zip(part, hints)]
+        A = _run_lines(exe, "all", lines)
+        for w, i, a in zip(part, I, A):
+            res["workspaces"] += 1
+
+            def bad(handler, what, **kw):
+                res["by_handler"][handler] = res["by_handler"].get(handler, 0) + 1
+                res["disagreements"].append(dict(kw, workspace=w, handler=handler, what=what))
+            if i.get("panic"):
+                bad("analysis", "implementation panicked: %s" % str(i["panic"])[:200])
+                continue
+            if a.get("error"):
+                bad("analysis", "bridgeall_run: " + a["error"])
+                continue
+            if a.get("noncore"):
+                res["noncore"] += 1
+                continue
+            files = a["files"]
+            keys = {norm_path(p): p for p in i["len"]}
+            if sorted(keys) != sorted(files):
+                bad("analysis", "workspace files: implementation %r, model %r" % (sorted(keys), files))
+                continue
+            res["compared"] += 1
+            if a["bad"] or not a["sm_ok"]:
+                bad("analysis", "model: indexer flag bad=%s, joined symbol map consistent=%s" % (a["bad"], a["sm_ok"]))
+            texts = {norm_path(p): t for p, t in w["files"].items()}
+            for k, f in enumerate(files):
+                p = keys[f]
+                res["files"] += 1
+                # diagnostics: parse messages literally, index messages by class
+                md = a["diagnostics"][k]
+                pm = set(m for _lo, _hi, kind, m in (md or []) if kind == "parse")
+                rd = sorted([lo, hi, "parse", m] if m in pm else [lo, hi, "index", sl.msg_class(m)]
+                            for lo, hi, m in i["diagnostics"].get(p, []))
+                if md is None or sorted(md) != rd:
+                    bad("diagnostics", "file %s: implementation %r, model %r" % (f, rd[:6], md if md is None else sorted(md)[:6]))
+                res["nonempty"]["diagnostics"] += bool(rd)
+                # whole-file handlers
+                if a["symbols"][k] != i["symbols"][p]:
+                    bad("document_symbol", "file %s: implementation %s, model %s" % (
+                        f, json.dumps(i["symbols"][p])[:400], json.dumps(a["symbols"][k])[:400]))
+                res["nonempty"]["document_symbol"] += bool(i["symbols"][p])
+                if a["folding"][k] != i["folding"][p]:
+                    bad("folding_range", "file %s: implementation %r, model %r" % (f, i["folding"][p], a["folding"][k]))
+                res["nonempty"]["folding_range"] += bool(i["folding"][p])
+                ml = a["links"][k]
+                ml = None if ml is None else [[lo, hi, files[t]] for lo, hi, t in ml]
+                rl = i["links"][p]
+                rl = None if rl is None else [[lo, hi, norm_path(t)] for lo, hi, t in rl]
+                if ml != rl:
+                    bad("document_link", "file %s: implementation %r, model %r" % (f, rl, ml))
+                res["nonempty"]["document_link"] += bool(rl)
+                # per-offset handlers
+                offs = char_offsets(texts.get(f, ""))
+                re_, me = _expand(i["at"][p], offs), _expand(a["at"][k], offs)
+                res["offsets"] += len(offs)
+                seen = set()
+                last = {}
+                for o in offs:
+                    r, m = re_[o], me[o]
+                    if r is last.get("r") and m is last.get("m"):
+                        continue
+                    last = {"r": r, "m": m}
+                    if r is None or m is None:
+                        bad("analysis", "file %s offset %d: no entry (implementation %r, model %r)" % (f, o, r, m))
+                        break
+
+                    def mfr(x):
+                        return None if x is None else [files[x[0]], x[1], x[2]]
+
+                    def rfr(x):
+                        return None if x is None else [norm_path(x[0]), x[1], x[2]]
+                    cmp = [("goto_definition", rfr(r["def"]), mfr(m["def"])),
+                           ("references", None if r["refs"] is None else [rfr(x) for x in r["refs"]],
+                            None if m["refs"] is None else [mfr(x) for x in m["refs"]]),
+                           ("hover", r["hover"], m["hover"]),
+                           ("completion", [_canon_items(r["comp"]), _canon_items(r["compbang"])],
+                            [_canon_items(m["comp"]), _canon_items(m["compbang"])])]
+                    for h, x, y in cmp:
+                        if x not in (None, [None, None]):
+                            res["nonempty"][h] += 1
+                        if x != y and h not in seen:
+                            seen.add(h)
+                            bad(h, "file %s offset %d: implementation %s, model %s" % (f, o, json.dumps(x)[:400], json.dumps(y)[:400]))
+                    # the symbol-map model on the joined state against the indexer model's own answers
+                    if (m["def_sm"] != m["def"] or m["refs_sm"] != m["refs"]) and "internal" not in seen:
+                        seen.add("internal")
+                        res["model_internal"] += 1
+                        bad("model-internal", "file %s offset %d: Scope.v answers def %r refs %r, SymbolMap.v on the joined state def %r refs %r" % (
+                            f, o, m["def"], m["refs"], m["def_sm"], m["refs_sm"]))
+            # inlay hints
+            mh = {(files[x[0]], x[1], x[2]): x[3] for x in a["hints"]}
+            reported = False
+            for p, hs in i["hints"].items():
+                for lo, hi, rh in hs:
+                    res["hint_requests"] += 1
+                    res["nonempty"]["inlay_hint"] += bool(rh)
+                    y = mh.get((norm_path(p), lo, hi), "missing")
+                    if y != rh and not reported:
+                        reported = True
+                        bad("inlay_hint", "file %s range [%d,%d): implementation %r, model %r" % (norm_path(p), lo, hi, rh, y))
+    return res
